@@ -86,9 +86,11 @@ func unitOf(f *ssa.Function) []*ssa.Function {
 // findU collects the instructions of f's unit that satisfy pred.
 func findU(f *ssa.Function, pred func(ssa.Instruction) bool) []ssa.Instruction {
 	var out []ssa.Instruction
-	for _, g := range unitOf(f) {
-		out = append(out, findInstrs(g, pred)...)
-	}
+	withRoot(f, func() {
+		for _, g := range unitOf(f) {
+			out = append(out, findInstrs(g, pred)...)
+		}
+	})
 	return out
 }
 
@@ -546,10 +548,26 @@ func resolveParam(v ssa.Value) ssa.Value {
 			return v
 		}
 		fn := p.Parent()
-		if !isPrivateHelper(fn) || unitExclude[fn] || len(curSites.sites[fn]) != 1 {
+		if !isPrivateHelper(fn) || unitExclude[fn] {
 			return v
 		}
-		call, ok := curSites.sites[fn][0].(*ssa.Call)
+		sites := curSites.sites[fn]
+		if len(sites) != 1 && scanRoot != nil {
+			// several call sites: the one inside the unit being scanned
+			var in []ssa.Instruction
+			for _, s := range sites {
+				for _, g := range unitOf(scanRoot) {
+					if s.Parent() == g {
+						in = append(in, s)
+					}
+				}
+			}
+			sites = in
+		}
+		if len(sites) != 1 {
+			return v
+		}
+		call, ok := sites[0].(*ssa.Call)
 		if !ok {
 			return v
 		}
@@ -675,11 +693,25 @@ func (p *upath) value(v ssa.Value) ssa.Value {
 	return v
 }
 
+// scanRoot is the function whose unit is being scanned: while it is set, a parameter of a helper
+// with several call sites is resolved through the call site inside this unit (if there is exactly one).
+var scanRoot *ssa.Function
+
+// withRoot runs fn with scanRoot set to root.
+func withRoot(root *ssa.Function, fn func()) {
+	old := scanRoot
+	scanRoot = root
+	defer func() { scanRoot = old }()
+	fn()
+}
+
 // instrsOfU visits the instructions of f and of the private helpers it calls.
 func instrsOfU(f *ssa.Function, fn func(in ssa.Instruction)) {
-	for _, g := range unitOf(f) {
-		instrsOf(g, fn)
-	}
+	withRoot(f, func() {
+		for _, g := range unitOf(f) {
+			instrsOf(g, fn)
+		}
+	})
 }
 
 // singleReturn: the value a private helper returns as result i, if it has exactly one return
